@@ -376,3 +376,166 @@ Proof.
   - destruct ow; [destruct H as [_ ->]; discriminate|]. split; [reflexivity|]. exists n, v, AFail. auto.
   - destruct ow; [destruct H as [_ ->]; discriminate|]. split; [reflexivity|]. exists n, v, AAbsent. auto.
 Qed.
+
+(* ====================================================================== *)
+(* 8. the place of the source (after 6dc7abe)                              *)
+(* ====================================================================== *)
+
+(* a source outside the plugin root: the general form is the plain one *)
+Theorem at_out tbl st src ow : install_at tbl st (POut src) ow = install tbl st src ow.
+Proof.
+  destruct (install_at_rel tbl st (POut src) ow eq_refl) as [H|[exe [n [copy [_ [Hh _]]]]]]; [exact H|].
+  cbn in Hh. discriminate.
+Qed.
+
+(* every result of the general form is a refusal that changes nothing, or comes from the finishing function *)
+Lemma install_with_g_cases doi loc tbl st ow :
+  (exists e, install_with_g doi loc tbl st ow = fail st e) \/
+  (exists exe n copy ex v, loc = LOk exe n copy /\ install_with_g doi loc tbl st ow = doi st n copy ex (n, v)).
+Proof.
+  destruct loc as [e|exe n copy]; cbn [install_with_g]; [left; eexists; reflexivity|].
+  unfold ask. destruct (negb (is_exec exe)); [left; eexists; reflexivity|].
+  destruct (tbl_get (f_cid exe) tbl) as [mn v| |]; try (left; eexists; reflexivity).
+  destruct (String.eqb mn n) eqn:E; [|left; eexists; reflexivity]. apply str_eqb_eq in E. subst mn.
+  repeat match goal with
+         | |- (exists e, fail ?s ?x = fail ?s e) \/ _ => left; eexists; reflexivity
+         | |- _ \/ (exists exe0 n0 copy0 ex v0, _ /\ doi ?s ?m ?c ?e (?m, ?w) = _) =>
+             right; exists exe, n, copy, e, w; split; reflexivity
+         | |- (exists e, match ?x with _ => _ end = _) \/ _ => destruct x
+         | |- (exists e, (if ?x then _ else _) = _) \/ _ => destruct x
+         end.
+Qed.
+
+(* a successful installation never has its source inside the directory it replaced: the plugin
+   whose directory (or executable) is the source is not (re)installed from it, with or without overwrite *)
+Theorem at_success_outside tbl st p ow st' r n v :
+  install_at tbl st p ow = (st', r) -> r_err r = None -> r_new r = Some (n, v) ->
+  rs_target (resolve st p) <> Some n /\ rs_home (resolve st p) <> Some n.
+Proof.
+  intros Hi He Hn.
+  assert (Ht : rs_target (resolve st p) <> Some n).
+  { unfold install_at, install_at_g in Hi.
+    destruct (install_with_g_cases (do_install_at (resolve st p)) (locate (rs_src (resolve st p))) tbl
+                (after_parse st p (locate (rs_src (resolve st p)))) ow) as [[e H]|[exe [m [copy [ex [w [_ H]]]]]]];
+      rewrite H in Hi.
+    - unfold fail in Hi. injection Hi as _ <-. discriminate.
+    - unfold do_install_at in Hi.
+      destruct (same_name (rs_home (resolve st p)) m); [unfold fail in Hi; injection Hi as _ <-; discriminate|].
+      destruct (negb (valid_name m)); [unfold fail in Hi; injection Hi as _ <-; discriminate|].
+      destruct (same_name (rs_target (resolve st p)) m) eqn:Et; [injection Hi as _ <-; discriminate|].
+      injection Hi as _ <-. cbn in Hn. injection Hn as <- _.
+      intros Hc. apply same_name_true in Hc. rewrite Hc in Et. discriminate. }
+  split; [exact Ht|]. intros Hh. apply Ht. apply home_target. exact Hh.
+Qed.
+
+(* a source inside the root that is neither of the two forms of [place_clean] is installed exactly
+   as an outside copy of it would be, or refused as being the installed plugin itself; then nothing changes *)
+Theorem at_as_outside tbl st p ow : place_clean st p = true ->
+  install_at tbl st p ow = install tbl st (rs_src (resolve st p)) ow \/
+  (install_at tbl st p ow = (st, mk_ires None None (Some ESelf)) /\
+   exists n, rs_home (resolve st p) = Some n /\
+             r_err (snd (install tbl st (rs_src (resolve st p)) ow)) = None).
+Proof.
+  intros Hc. destruct (install_at_rel tbl st p ow Hc) as [H|[exe [n [copy [_ [Hh [He H]]]]]]]; [left; exact H|].
+  right. split; [exact H|]. exists n. auto.
+Qed.
+
+(* refused or failed: root, List and all answers as they were - wherever the source lies *)
+Theorem at_frame tbl st p ow st' r : place_clean st p = true ->
+  install_at tbl st p ow = (st', r) -> r_err r <> None ->
+  st' = st /\ r_new r = None /\ r_existing r = None /\ view_of tbl st' = view_of tbl st.
+Proof.
+  intros Hc Hi He. destruct (at_as_outside tbl st p ow Hc) as [H|[H _]]; rewrite H in Hi.
+  - apply (refused_frame tbl st (rs_src (resolve st p)) ow st' r Hi He).
+  - injection Hi as <- <-. auto.
+Qed.
+
+(* the plugin's own directory / executable, with overwrite, when the plugin works: refused, untouched *)
+Theorem at_self_refused tbl st p k exe copy v :
+  place_clean st p = true -> source_ok (rs_src (resolve st p)) = true ->
+  rs_home (resolve st p) = Some k -> locate (rs_src (resolve st p)) = LOk exe k copy ->
+  tbl_get (f_cid exe) tbl = MOk k v ->
+  install_at tbl st p true = (st, mk_ires None None (Some ESelf)).
+Proof.
+  intros Hc Hwf Hh Hl Ht.
+  destruct (at_as_outside tbl st p true Hc) as [H|[H _]]; [|exact H]. exfalso.
+  destruct (install tbl st (rs_src (resolve st p)) true) as [s0 r0] eqn:Hi.
+  assert (Hcand : candidate tbl (rs_src (resolve st p)) = Some (k, v)).
+  { destruct (locate_ok _ _ _ _ Hwf Hl) as [Hse [Hpn _]]. unfold candidate. rewrite Hse, Hpn.
+    rewrite (locate_err_or_valid _ _ _ _ Hl). cbn [negb]. rewrite Ht, str_eqb_refl. reflexivity. }
+  assert (He : r_err r0 = None).
+  { apply (c20_install_success_iff tbl st _ true s0 r0 Hwf Hi). unfold verdict. rewrite Hcand.
+    destruct (existing tbl st k) as [[| | | |]|]; cbn [orb]; discriminate. }
+  pose proof (c20_install_result tbl st _ true s0 r0 Hwf Hi) as Hr.
+  destruct (verdict tbl st (rs_src (resolve st p)) true) as [[[n' v'] ex]|] eqn:Hv.
+  2:{ destruct Hr as [_ [e [-> _]]]. discriminate. }
+  pose proof (verdict_candidate _ _ _ _ _ _ _ Hv) as Hc'. rewrite Hcand in Hc'. injection Hc' as <- <-.
+  destruct Hr as [_ ->].
+  destruct (at_success_outside tbl st p true s0 _ k v H eq_refl eq_refl) as [_ Hn]. apply Hn. exact Hh.
+Qed.
+
+Lemma final_state_at_app tbl : forall ops1 ops2 st,
+  final_state_at tbl st (ops1 ++ ops2) = final_state_at tbl (final_state_at tbl st ops1) ops2.
+Proof.
+  induction ops1 as [|o ops1 IH]; intros ops2 st; [reflexivity|]. cbn [app final_state_at]. apply IH.
+Qed.
+
+(* a refused installation at any place of a history whose installations name their places *)
+Theorem at_history_step_frame tbl ops1 p ow st :
+  let T := final_state_at tbl st ops1 in
+  place_clean T p = true -> r_err (snd (install_at tbl T p ow)) <> None ->
+  final_state_at tbl st (ops1 ++ [AInstall p ow]) = T.
+Proof.
+  intros T Hc He. rewrite final_state_at_app. cbn [final_state_at mstep_at]. fold T.
+  destruct (install_at tbl T p ow) as [s r] eqn:Hi. cbn [fst snd] in *.
+  destruct (at_frame tbl T p ow s r Hc Hi He) as [H _]. exact H.
+Qed.
+
+(* ---- witnesses ---- *)
+Definition self_tbl : table := [(1%N, MOk "foo" "1.0.0"); (2%N, MOk "foo" "2.0.0"); (7%N, MFail)].
+Definition self_st : state := [("foo", [F "lib.so" 420 7; F "notation-foo" 493 1])].
+
+(* before 6dc7abe: the plugin's own directory or executable as the source, with overwrite: an error and
+   the plugin is gone; now: refused, untouched *)
+Lemma self_v0_refuted :
+  install_at_v0 self_tbl self_st (PInDir "foo") true = ([], mk_ires None None (Some ECopy)) /\
+  install_at_v0 self_tbl self_st (PInFile "foo" "notation-foo") true = ([], mk_ires None None (Some ECopy)) /\
+  install_at self_tbl self_st (PInDir "foo") true = (self_st, mk_ires None None (Some ESelf)) /\
+  install_at self_tbl self_st (PInFile "foo" "notation-foo") true = (self_st, mk_ires None None (Some ESelf)) /\
+  install_at self_tbl self_st (PInDir "foo") false = (self_st, mk_ires None None (Some EEqual)).
+Proof. vm_compute. repeat split; reflexivity. Qed.
+
+(* still false of the faithful model (findings): [place_clean] cannot be dropped from at_frame *)
+Lemma at_frame_chmod_refuted :
+  let st := [("foo", [F "lib.so" 420 7; F "notation-foo" 420 1])] in
+  place_clean st (PInDir "foo") = false /\
+  (forall ow, exists e, install_at self_tbl st (PInDir "foo") ow
+                        = ([("foo", [F "lib.so" 420 7; F "notation-foo" 484 1])], mk_ires None None (Some e))) /\
+  existing self_tbl st "foo" = Some AFail /\
+  existing self_tbl [("foo", [F "lib.so" 420 7; F "notation-foo" 484 1])] "foo" = Some (AOk "foo" "1.0.0").
+Proof.
+  cbv zeta. split; [vm_compute; reflexivity|]. split; [|vm_compute; split; reflexivity].
+  intros [|]; eexists; vm_compute; reflexivity.
+Qed.
+
+Lemma at_frame_linkfile_refuted :
+  place_clean self_st (PLinkFile "notation-foo" "foo" "notation-foo") = false /\
+  install_at self_tbl self_st (PLinkFile "notation-foo" "foo" "notation-foo") true
+    = ([], mk_ires None None (Some ECopy)).
+Proof. vm_compute. split; reflexivity. Qed.
+
+(* another plugin's directory holding an executable named for foo: foo is installed from it as from any
+   directory, the other directory stays as it is; the directory of a plugin cannot name another plugin
+   through its own executable (the name is read off the file name), but it can hold such a file *)
+Lemma at_other_plugin_witness :
+  let st := [("baz", [F "data" 420 7; F "notation-foo" 493 2]); ("foo", [F "lib.so" 420 7; F "notation-foo" 493 1])] in
+  install_at self_tbl st (PInDir "baz") false
+    = ([("baz", [F "data" 420 7; F "notation-foo" 493 2]); ("foo", [F "data" 420 7; F "notation-foo" 493 2])],
+       mk_ires (Some ("foo", "1.0.0")) (Some ("foo", "2.0.0")) None) /\
+  install_at self_tbl st (PInFile "baz" "notation-foo") false
+    = ([("baz", [F "data" 420 7; F "notation-foo" 493 2]); ("foo", [F "notation-foo" 493 2])],
+       mk_ires (Some ("foo", "1.0.0")) (Some ("foo", "2.0.0")) None) /\
+  install_at self_tbl st PLinkDir true = (st, mk_ires None None (Some ESrcNoExec)) /\
+  wf (IHistAt self_tbl st [AInstall (PInDir "baz") false; AInstall (PInDir "foo") true;
+                           AInstall (PInFile "foo" "notation-foo") false; AInstall PLinkDir true]) = true.
+Proof. vm_compute. repeat split; reflexivity. Qed.
